@@ -6,7 +6,7 @@ props = [json.loads(l) for l in open(os.path.join(V, "properties.jsonl"))]
 ready = json.load(open(os.path.join(V, "lean", "READY.json")))
 
 PARTIAL = {
-    "C01": "Proved: the scanner, the parser and the evaluator of the model never loop and never take a panic branch on well-formed trees and reachable environments (fuel adequacy, progress, invariant over all histories; hypothesis PosToNat on the kernel for identity()). Carried by the streams alone: native stack depth, allocation failure, RefCell borrow flags, byte-index slicing; the K4 witnesses are replayed and listed as known findings.",
+    "C01": "Proved: the scanner, the parser and the evaluator of the model never loop and never take a panic branch on well-formed trees and reachable environments (fuel adequacy, progress, invariant over all histories; hypothesis PosToNat on the kernel for identity()). C01Term: evaluation returns with an explicit fuel bound for every tree whose calls go to native functions or to non-recursive (ranked) user functions, running out of fuel requires the application of a user function, and the known non-terminating witnesses (named recursion, self-application through a parameter, a missed base case such as r(2.5)) are proved to diverge for every fuel. Carried by the streams alone: native stack depth, allocation failure, RefCell borrow flags, byte-index slicing; the K4 witnesses are replayed and listed as known findings.",
     "C02": "Proved: evaluation of every number expression equals an independent denotation into Mathlib's complex numbers, with exactly the stated refusals; kind table; factorial. Floating-point rounding is carried by running the same definitions at Float against the implementation (bitwise / 4 ulp) and by an independent evaluator under a magnitude-scaled bound.",
     "C03": "Proved: the parser accepts exactly the documented grammar and returns its tree (C03_exact: parse ts = ok ss <-> DerivesProgram ts ss; soundness, completeness, unambiguity, statement shapes, delimiter requirement).",
     "C04": "Proved: scan ok <-> declarative decomposition into blank runs and lexemes with exact slices, positions, number shape and value, whole-word keyword lookup, longest match, bad-character report; shipped spelling table = documented spellings except the known finding yard/yards/yd (partial theorem + proved counterexample). The number reader of the executable model (decimalToBits) is proved correctly rounded for every digit string and exponent (nearest, ties to even, subnormals, overflow threshold: C04Round); Rust's f64::from_str is compared with it bit for bit by the fmt stream.",
